@@ -75,6 +75,6 @@ def canon_window(snap):
     for k in sorted(snap):
         v = snap[k]
         if isinstance(v, dict):
-            v = tuple(sorted((r, None if line is None else str(line), None if line is None else len(line)) for r, line in v.items()))
+            v = tuple(sorted((r, None if line is None else str(line), None if line is None else len(line), isinstance(line, str)) for r, line in v.items()))
         items.append((k, v))
     return tuple(items)
